@@ -244,6 +244,34 @@ def e2e_stream(run):
             why = ("one-shell-no-exit", "after the one shell ended the program did not exit with success at the operator's next entered line (status %s; 999 = had to be killed)" % r["rc"])
         if why:
             bad.append((why, r))
+    def verdict(r):
+        if r.get("error") or not r["attached"]:
+            return ("harness", "the scenario could not be set up: %s" % (r.get("error") or "shell did not attach"))
+        if r["gone_early"] or not r["worked_at_end"]:
+            return ("one-shell-shell-disturbed", "with -one-shell the attached shell did not keep working undisturbed for %s s after the listener closed" % r["hold_s"])
+        if r.get("first_line_did_not_exit") and r["rc"] == 0:
+            return ("one-shell-line-within-shutdown-poll", "a line entered 30 ms after a shell that had lived for 4 s ended was consumed without the program "
+                    "exiting (the next line did end it)")
+        if r["rc"] != 0:
+            return ("one-shell-no-exit", "after the one shell ended the program did not exit with success at the operator's next entered line (status %s; 999 = had to be killed)" % r["rc"])
+        return None
+    # real time, real processes: a round that went wrong is run once more and reported only if it goes wrong again (the known finding is provoked on purpose
+    # and reported as it is)
+    knownkeys = {k["key"] for k in vlib.known_findings()["known"] if k["property"] == run.pid}
+    confirmed, unrepro = [], []
+    for w, r in bad:
+        if w[0] in knownkeys:
+            confirmed.append((w, r)); continue
+        k = rs.index(r)
+        r2 = e2e_round(binp, os.path.join(run.rundir, "e2e%d_again" % k), *plan[k])
+        w2 = verdict(r2)
+        if w2:
+            confirmed.append((w2, r2))
+        else:
+            unrepro.append({"round": plan[k], "first_run": w[1]})
+    if unrepro:
+        run.cov.setdefault("flagged_once_but_not_reproduced", []).append({"stream": "e2e", "cases": unrepro[:5]})
+    bad = confirmed
     for (key, what), r in bad[:3]:
         if key != "harness":
             run.violation(key, what, {"stream": "e2e", "input": {"how_the_shell_ends": r["how"], "attached_for_s": r["hold_s"]}, "detail": r})
@@ -308,7 +336,8 @@ def check(run):
                       "attempts (wrong id, missing id) or a mix; the listening socket is probed with connect(2) at start, after every earlier attempt, "
                       "while half attached, after the ready notice (polling up to 3 s for 'refused'), during traffic through the shell and after the "
                       "shell ended; then Server.Do must have returned ErrOneShellClosed by itself; non-trivial = every scenario",
-                      key_fn=lambda i: json.dumps(i["before"]) + i["attach"] + str(i["one_shell"]) + i.get("listen", "") + i.get("probe_after_ready", ""))
+                      key_fn=lambda i: json.dumps(i["before"]) + i["attach"] + str(i["one_shell"]) + i.get("listen", "") + i.get("probe_after_ready", ""),
+                      confirm=lambda idxs: [(one(k)[0] or [None])[0] for k in idxs])
     e2e_stream(run)
     run.assumptions += ["net.Listener.Close makes the kernel refuse new connections 'shortly': polled up to 3 s; http.Server.Shutdown semantics are net/http's",
                         "the program's exit status for ErrOneShellClosed / EOF is modelled (Model/OneShell.exit_code) and exercised on the real binary by C20's check"]
